@@ -179,3 +179,39 @@ Proof.
   split; [repeat constructor; cbn; intuition|].
   vm_compute. repeat split; discriminate.
 Qed.
+
+(* (seeded C06-4) cacheopt.go newOptions without the trailing "<= 0 means default" fallback: an
+   option WithExpiry(0) / WithNotFoundExpiry(0) (an unset configuration field passed through)
+   reaches the node unchanged.  aroundDuration(0) = 0, ceil = 0 seconds, and SETEX / SETNX with
+   0 seconds store a PERSISTENT key: with the raw expiry the oracle t = 0 is inside the band and
+   every ordinary Take writes an entry that never expires; with the fallback (the real code,
+   [load_primary]) t = 0 is not a behaviour at all. *)
+Definition load_primary_raw (c : config) (s : state) (p t : Z) : state * obs :=
+  let k := KP p in
+  if dbFault s then (s, mkObs RDbErr 0 1)
+  else
+    match db_get p (db s) with
+    | Some (u, v) =>
+      if ttl_ok (cexpiry c) t
+      then (set_cache s (put k (mkEntry (CRow u v) (exp_of (clock s) t)) (cache s)), mkObs (RRow p u v) 0 1)
+      else (s, mkObs RBadOracle 0 1)
+    | None =>
+      if ttl_ok (cnf c) t
+      then (set_cache s (put k (mkEntry CHole (exp_of (clock s) t)) (cache s)), mkObs RNf 0 1)
+      else (s, mkObs RBadOracle 0 1)
+    end.
+
+Theorem options_fallback_dropped_refuted :
+  exists c rows p q,
+    cexpiry c <= 0 /\ cnf c <= 0 /\
+    (* a cached row and a not-found marker without expiry *)
+    find (KP p) (cache (fst (load_primary_raw c (init rows) p 0))) = Some (mkEntry (CRow 7 41) None) /\
+    find (KP q) (cache (fst (load_primary_raw c (init rows) q 0))) = Some (mkEntry CHole None) /\
+    (forall now, lookup now (cache (fst (load_primary_raw c (init rows) q 0))) (KP q) <> None) /\
+    (* the real code: the defaults apply, a TTL of 0 s is outside the band *)
+    oret (snd (load_primary c (init rows) p 0)) = RBadOracle /\
+    ttl_ok (expiry_of c) (ttl_hi default_expiry) = true /\ 1 <= ttl_lo default_expiry.
+Proof.
+  exists (mkCfg 0 0 [] false), f7_rows, 1, 2.
+  vm_compute. repeat split; discriminate.
+Qed.
